@@ -1,1 +1,172 @@
 //! Verification facade: `tuple` (feature `verif`).
+//!
+//! Thin wrappers around the crate-private tuple codec (`storage::tuple`), `Schema`/`Column`
+//! construction and `Snapshot`, so that an external harness can build tuples, add versions,
+//! delete, decode for a chosen snapshot, vacuum with a horizon and look at the raw bytes.
+use std::collections::{HashMap, HashSet};
+
+use crate::{
+    CELL_ALIGNMENT,
+    multithreading::coordinator::Snapshot,
+    schema::{Column, Schema},
+    storage::tuple::{Row, Tuple, TupleBuilder, TupleHeader},
+    types::{DataType, DataTypeKind},
+};
+
+/// A schema made of unnamed columns of the given kinds, the first `num_keys` of them being keys.
+pub struct VSchema(Schema);
+
+/// A snapshot with every field chosen by the caller.
+pub struct VSnapshot(Snapshot);
+
+/// An owned tuple (one stored row with its version history).
+pub struct VTuple(Tuple);
+
+/// Error class of a tuple operation (the message text is never used).
+#[derive(Debug, Clone, Copy, PartialEq, Eq)]
+pub struct VTupleError;
+
+pub fn schema(kinds: &[DataTypeKind], num_keys: usize) -> VSchema {
+    let columns = kinds
+        .iter()
+        .enumerate()
+        .map(|(i, k)| Column::new_with_defaults(*k, &format!("c{i}")))
+        .collect();
+    VSchema(Schema::new_index(columns, num_keys))
+}
+
+pub fn snapshot(xid: u64, xmin: u64, xmax: Option<u64>, active: &[u64], aborted: &[u64]) -> VSnapshot {
+    let active: HashSet<u64> = active.iter().copied().collect();
+    let aborted: HashSet<u64> = aborted.iter().copied().collect();
+    VSnapshot(Snapshot::new(xid, xmin, xmax, active, aborted))
+}
+
+impl VSnapshot {
+    /// `Snapshot::is_committed_before_snapshot`
+    pub fn is_committed_before(&self, xid: u64) -> bool {
+        self.0.is_committed_before_snapshot(xid)
+    }
+    /// `Snapshot::is_tuple_visible`
+    pub fn is_tuple_visible(&self, xmin: u64, xmax: Option<u64>) -> bool {
+        self.0.is_tuple_visible(xmin, xmax)
+    }
+}
+
+/// `TupleBuilder::build`
+pub fn build(schema: &VSchema, row: Vec<DataType>, xmin: u64) -> Result<VTuple, VTupleError> {
+    let row = Row::new(row.into_boxed_slice());
+    TupleBuilder::from_schema(&schema.0)
+        .build(&row, xmin)
+        .map(VTuple)
+        .map_err(|_| VTupleError)
+}
+
+impl VTuple {
+    /// The bytes of the tuple (`effective_data`).
+    pub fn bytes(&self) -> Vec<u8> {
+        self.0.effective_data().to_vec()
+    }
+
+    /// The bytes as they are logged and stored (`full_data`: padded to the cell alignment).
+    pub fn full_bytes(&self) -> Vec<u8> {
+        self.0.full_data().to_vec()
+    }
+
+    /// `Tuple::from_slice_unchecked`
+    pub fn from_bytes(bytes: &[u8]) -> Result<VTuple, VTupleError> {
+        Tuple::from_slice_unchecked(bytes).map(VTuple).map_err(|_| VTupleError)
+    }
+
+    /// (xmin, xmax, version) of the tuple header.
+    pub fn header(&self) -> (u64, Option<u64>, u8) {
+        (self.0.xmin(), self.0.xmax(), self.0.version())
+    }
+
+    /// `Tuple::add_version_with`
+    pub fn add_version(
+        &mut self,
+        schema: &VSchema,
+        modified: &HashMap<usize, DataType>,
+        new_xmin: u64,
+    ) -> Result<(), VTupleError> {
+        self.0.add_version_with(modified, new_xmin, &schema.0).map_err(|_| VTupleError)
+    }
+
+    /// `Tuple::delete`
+    pub fn delete(&mut self, xid: u64) -> Result<(), VTupleError> {
+        self.0.delete(xid).map_err(|_| VTupleError)
+    }
+
+    /// `Tuple::vaccum_with`; returns the number of bytes freed.
+    pub fn vacuum(&mut self, schema: &VSchema, oldest_active_xid: u64) -> Result<usize, VTupleError> {
+        self.0.vaccum_with(oldest_active_xid, &schema.0).map_err(|_| VTupleError)
+    }
+
+    /// `Row::from_bytes_checked` (newest version, no visibility check).
+    pub fn read_last(&self, schema: &VSchema) -> Result<Vec<DataType>, VTupleError> {
+        Row::from_bytes_checked(self.0.effective_data(), &schema.0)
+            .map(|r| r.into_inner().into_vec())
+            .map_err(|_| VTupleError)
+    }
+
+    /// `Row::from_bytes_checked_with_snapshot`: the version the snapshot sees, if any.
+    pub fn read_for(&self, schema: &VSchema, snapshot: &VSnapshot) -> Result<Option<Vec<DataType>>, VTupleError> {
+        Row::from_bytes_checked_with_snapshot(self.0.effective_data(), &schema.0, &snapshot.0)
+            .map(|o| o.map(|r| r.into_inner().into_vec()))
+            .map_err(|_| VTupleError)
+    }
+
+    /// `Tuple::num_versions_with`
+    pub fn num_versions(&self, schema: &VSchema) -> Result<usize, VTupleError> {
+        self.0.num_versions_with(&schema.0).map_err(|_| VTupleError)
+    }
+
+    /// Test scaffolding, not a wrapper: overwrites the `xmin` field of the tuple header in place.
+    /// Lets a harness emulate a writer that stamps a new version with its creator.
+    pub fn set_header_xmin(&mut self, xid: u64) {
+        let buffer = self.0.effective_data_mut();
+        let (mut header, _) = TupleHeader::read_from(buffer, 0);
+        header.xmin = xid;
+        header.write_to(buffer, 0);
+    }
+}
+
+/// Layout constants of the tuple codec as the code defines them.
+pub struct TupleConstants {
+    pub header_size: usize,
+    pub header_align: usize,
+    pub header_xmin_offset: usize,
+    pub header_xmax_offset: usize,
+    pub header_version_offset: usize,
+    pub delta_header_size: usize,
+    pub delta_header_align: usize,
+    pub delta_xmin_offset: usize,
+    pub delta_version_offset: usize,
+    pub cell_alignment: usize,
+    /// (discriminant, name, fixed size, alignment) of every `DataTypeKind`
+    pub kinds: Vec<(u8, &'static str, Option<usize>, usize)>,
+}
+
+pub fn constants() -> TupleConstants {
+    use crate::storage::tuple::delta_header_layout;
+    let (delta_header_size, delta_header_align, delta_xmin_offset, delta_version_offset) = delta_header_layout();
+    let mut kinds = Vec::new();
+    for repr in 0..=255u8 {
+        if let Some(k) = DataTypeKind::from_repr(repr) {
+            kinds.push((repr, k.name(), k.fixed_size(), k.align()));
+        }
+    }
+    TupleConstants {
+        header_size: TupleHeader::SIZE,
+        header_align: TupleHeader::ALIGN,
+        header_xmin_offset: std::mem::offset_of!(TupleHeader, xmin),
+        header_xmax_offset: std::mem::offset_of!(TupleHeader, xmax),
+        header_version_offset: std::mem::offset_of!(TupleHeader, version),
+        delta_header_size,
+        delta_header_align,
+        delta_xmin_offset,
+        delta_version_offset,
+        cell_alignment: CELL_ALIGNMENT as usize,
+        kinds,
+    }
+}
